@@ -48,6 +48,7 @@ var c01Kinds = []c01Kind{
 	{T: decl.TPInts, Vals: []string{"3", "-4"}},
 	{T: decl.TCSV, Vals: []string{"a,b", "c"}},
 	{T: decl.TSink, Vals: []string{"val", "x"}}, // an Unmarshaler with a value receiver
+	{T: decl.TOnOffs, Vals: []string{"on", "off"}}, // a slice of a bool-kinded Unmarshaler: every element takes an argument
 	{T: decl.TInt, Base: "0", Vals: []string{"0644", "0x1F", "12"}}, // base inferred from the prefix
 	{T: decl.TFuncS, Vals: []string{"val"}, Default: []string{"dflt"}}, // a callback with a default: called with it only when the option does not occur
 }
@@ -191,8 +192,8 @@ func init() {
 		short := []string{"u", "é"}[c.Choose(2)]
 		api := c.Bool()
 		hf := c.Bool()
-		if hf && !c.Thorough && ce.placement != c01PlParser && ce.placement != c01PlCmd && ce.placement != c01PlNs {
-			c.Skip() // quick: HelpFlag|PassDoubleDash go with three of the placements
+		if hf && ce.placement != c01PlParser && ce.placement != c01PlCmd && ce.placement != c01PlNs {
+			c.Skip() // HelpFlag|PassDoubleDash go with three of the placements
 		}
 		kind := c01Kinds[ce.kind]
 		// for API builds whose option under test sits in a group of the parser: also with that group added late, after the
@@ -292,10 +293,10 @@ func init() {
 		Level:      "model_checking",
 		ShardDepth: 2,
 		Body:       body,
-		Rule: "option under test U of 28 kinds (an int with base 0, an Unmarshaler with a value receiver, a func(string) with a default tag, bool, []bool, string, int, uint8, float64, float32, Duration, *string, *int, []string, []int, []*int, map[string]string, map[string]int, " +
+		Rule: "option under test U of 29 kinds (a slice of a bool-kinded Unmarshaler, an int with base 0, an Unmarshaler with a value receiver, a func(string) with a default tag, bool, []bool, string, int, uint8, float64, float32, Duration, *string, *int, []string, []int, []*int, map[string]string, map[string]int, " +
 			"func(), func(string), func(int) error, Unmarshaler, *Unmarshaler, []Unmarshaler, a bool-kinded Unmarshaler, a slice-kinded Unmarshaler, optional-argument string/int) x 11 placements (parser, subgroup, namespaced, doubly namespaced, command, " +
 			"command's namespaced group, sub-subcommand, shadowing an ancestor's option at two depths, shadowing through an identical namespaced long name, plain group nested in a namespaced group) x namespace delimiter {., ::} x short name {u, é} x {struct tags, AddGroup/AddCommand API, API with the parser's groups added after the commands and after two parses that selected them} " +
-			"x {None, HelpFlag|PassDoubleDash (quick: on three of the placements)}; every sequence of <= 3 (quick) / <= 4 (thorough) units over all spellings of U with 1-3 values and with the empty attached value (--name= or -u=), bystander options, command words and a plain word, plus beyond that bound every unit repeated 5, 8, 9, 10, 16, 17 and 33 times; " +
+			"x {None, HelpFlag|PassDoubleDash (on three of the placements)}; every sequence of <= 3 (quick) / <= 4 (thorough) units over all spellings of U with 1-3 values and with the empty attached value (--name= or -u=), bystander options, command words and a plain word, plus beyond that bound every unit repeated 5, 8, 9, 10, 16, 17 and 33 times; " +
 			"oracle = command-line reference model (CLM) + conversion model; compared on every successful parse; states = distinct (declaration, CLM state), distinct = distinct (declaration, error class, #occurrences, value of U)",
 		Assumptions:  []string{"multi-valued optional-argument options are kept out (bare occurrence semantics undocumented)", "flags of a cluster that precede an unknown character are not asserted"},
 		RequiredHits: []string{"compared", "repeated-occurrence", "model-fault", "late-built"},
